@@ -163,6 +163,12 @@ def worker(task: Tuple) -> Dict[str, Any]:
             acc.out["queries"] += cv.queries
             if cv.outcome != "ok":
                 acc.ob("sat", f"{label}/{kind}:returns", key)
+                if cv.outcome in ("forks", "nonlinear"):
+                    # the result is not one affine map of the magnitude: a candidate, judged by the replay
+                    acc.out["viol"].append((f"C10:not-affine:{s}->{d}" + ("" if kind == "float" else f":{kind}"),
+                                            f"{label} ({kind} magnitudes): the result is not an affine map of "
+                                            f"the magnitude ({cv.outcome})", replay(sc, dc, C, D, "value", kind), "soft"))
+                    continue
                 acc.out["viol"].append((f"C10:raises:{s}->{d}", f"{label} raises {cv.outcome}",
                                         replay(sc, dc, C, D, "raises", kind)))
                 continue
